@@ -19,6 +19,7 @@ every request on the thread shares.
 | `Step.withOwner`              | `Owner::with`: replaces OWNER, **sets** the arena (`Arena::set`), runs the closure, restores OWNER — the arena is NOT restored (as in the code) |
 | `Step.withObserver`           | `WithObserver::with_observer` (`SetObserverOnDrop` restores)                                   |
 | `Step.enter o ob body`        | `owner.with(|| ob.with_observer(|| body))` inline in a task that is itself NOT wrapped: how the spawned task of an `ArcAsyncDerived` (Resource, AsyncDerived: `spawn_derived!`) runs every (re-)run of the fetcher — the sync part under `owner.with_cleanup(|| subscriber.with_observer(|| ScopedFuture::new(fun())))`, each poll of the async part through that `ScopedFuture` — and how `Effect::new_isomorphic` runs its body |
+| `Step.cleanupFns o body`      | the `on_cleanup` functions of owner `o` run by `Owner::cleanup()`, by the `with_cleanup` of a memo / effect re-run, or by the drop of the owner: `Cleanup::cleanup` / `Drop for OwnerInner` hold `Arena::enter(&self.arena)` (fix-c20-4): the owner's own ARENA is current for the functions and the previous one is restored; OWNER and OBSERVER are whatever they were |
 | `Step.setRoot` / `Step.unset` | `Owner::new_root` → `Owner::set` (permanent) / `Owner::unset` (clears OWNER only if it is this owner) |
 | `Step.yield`                  | an `.await` that returns `Pending`: the poll ends                                               |
 | `Step.spawn wr sb p`          | a spawn site: `wr` = the future is wrapped in `ScopedFuture::new` (captures `Owner::current()` and `Observer::get()`), `sb` = in `Sandboxed::new` (captures the arena); e.g. `spawn_local_scoped` = (true,true), `reactive_graph::spawn` = (false,true), a bare `Executor::spawn` = (false,false) |
@@ -68,6 +69,7 @@ inductive Step where
   | withOwner (o : OwnerId) (body : List Simple)
   | withObserver (ob : Option Id) (body : List Simple)
   | enter (o : OwnerId) (ob : Option Id) (body : List Simple)
+  | cleanupFns (o : OwnerId) (body : List Simple)
   | setRoot (o : OwnerId)
   | unset (o : OwnerId)
   | yield
@@ -187,6 +189,9 @@ def runSteps (w : World) (r : Req) : Amb → Mem → List Task → List Step →
   | a, m, sp, .enter o ob body :: rest =>
     let inner : Amb := { owner := some o, observer := ob, arena := arenaAfterSet w o a.arena }
     runSteps w r { a with arena := inner.arena } (runBody w r inner m body) sp rest
+  | a, m, sp, .cleanupFns o body :: rest =>
+    -- `Arena::enter(&owner.arena)`: the arena only, and the previous one comes back afterwards
+    runSteps w r a (runBody w r { a with arena := arenaAfterSet w o a.arena } m body) sp rest
   | a, m, sp, .setRoot o :: rest =>
     runSteps w r { a with owner := some o, arena := arenaAfterSet w o a.arena } m sp rest
   | a, m, sp, .unset o :: rest =>
